@@ -5,6 +5,8 @@
     or uuid);
  R2 get_estimates binds a freshly constructed model and results handler on every path before any use;
  R3 no order-sensitive consumption of an unordered set (hash-seed dependence) in reachable code;
+ R7 summary-fresh: the table stored under final_results['nat_sum_data'] is built from the estimates of this summary call only (it does
+    not read final_results), so several summaries after one run do not depend on each other;
  R6 cache round trip: what save_data writes to the local preprocessed file (read back as input by later runs) is restricted to the
     columns captured in load_data from the incoming frame, not this run's derived columns (F34);
  R4 caller-owned arguments of the entry points are not mutated in place (a second run with the same objects would
@@ -20,6 +22,7 @@ from .. import util
 from ..cfg import CFG
 from ..model import AnalysisError, FuncInfo, attr_chain
 from ..mutation import Mutation
+from ..ir import walk as ir_walk
 
 CLIENT = "elexmodel.client"
 GEN_CTORS = {"numpy.random.default_rng", "numpy.random.RandomState", "numpy.random.Generator", "numpy.random.SeedSequence",
@@ -555,6 +558,26 @@ def check(ctx):
                    else f"caller-owned argument '{p}' is modified in place: {hits[0][1]} - a second run given the same object "
                         f"sees different data")
     ctx.count("C12.R4.functions_summarised", len(mu._sum))
+
+    # ---- R7 the national summary table is built from this call alone ----------------------------------------
+    # "The same holds for the national summary": one estimate run can be followed by several summary calls (other weights, base, levels).
+    # The table a call returns must be a function of that call's estimates: the entry stored under 'nat_sum_data' must not be computed
+    # from the entry a previous call left there (or from any other entry of final_results).
+    MRm = "elexmodel.handlers.data.ModelResults"
+    an = ctx.fn(MRm, "ModelResultsHandler.add_national_summary_estimates")
+    ans = ctx.builder().summarize(an)
+    stores = []
+    for w in ans.attr_writes:
+        for x in ir_walk(w[2]):
+            if x[0] == "setitem" and x[2] == ("const", "nat_sum_data") and x not in stores:
+                stores.append(x)
+    ctx.sites("C12.R7", len(stores), 1, "store of final_results['nat_sum_data']")
+    for x in stores:
+        prior = [y for y in ir_walk(x[3]) if y == ("attr", ("param", "self"), "final_results")]
+        ctx.ob("C12.R7.summary-fresh", f"{an.qualname}|the summary table does not depend on an earlier summary", not prior, an.where(),
+               "the table stored under 'nat_sum_data' is built from this call's estimates only" if not prior else
+               "the table stored under 'nat_sum_data' is computed from self.final_results (what an earlier call stored): a second summary with "
+               "another base, other weights or other levels returns columns of the first one")
 
     # ---- R6 the local data file round-trips -----------------------------------------------------------
     # "before or after other runs with different arguments": the one piece of state that outlives a run on purpose is the local copy of
